@@ -30,6 +30,18 @@ CLAIMED = {
           "Registration fault classes are off for this check (the property says 'absent registration failures').", "3/C16"),
 }
 
+CLAIMED.update({
+  "C08": ("dsim", "deterministic simulation: generated callback programs over the (running kind, operation, target kind) matrix, panic oracle at the dispatch boundary", "exploration",
+          "Callback and idle scripts of up to 6 handle operations (insert, register_dispatcher, insert_idle, remove, disable, update, enable of another source, ping/send on calloop's own handles, nested insertions whose callbacks act themselves) run inside real dispatches; every API call and every dispatch runs under catch_unwind, a panic or RefCell double borrow is a violation; the in-callback effect of each operation is checked by the same model as outside a dispatch. Evidence reports the matrix cells covered.",
+          "enable() of and as_source_ref/mut on the running source are documented exclusions and never generated.", "3/C08"),
+  "C09": ("dsim", "deterministic simulation: every source wrapped in a call-counting EventSource; register/reregister/unregister calls vs the calls the history implies", "exploration",
+          "Every calloop source is inserted through a transparent wrapper that counts register/reregister/unregister calls and reports the returned PostAction; after every event and every step the counts of all sources must equal what the model derives from the history (Continue: nothing, Reregister: one reregister on that source, Disable: one unregister, Remove: one unregister and release; deferred self-requests merged only under Continue; nothing on any other source, nothing carried over, also after an error). The 16 PostAction pairs of | and |= are evaluated at the start of every run.",
+          "The wrapper is harness code (thin delegation).", "3/C09"),
+  "C15": ("dsim", "deterministic simulation with fault enumeration: every epoll_ctl seam call and every process_events call of a fault-free history is failed in turn", "fault_enumeration",
+          "Each generated history is first run fault-free, which numbers every fault site it passes (each Poll::register/reregister/unregister call, each process_events invocation); it is then re-run once per site with exactly that site failing (errno rotating over EEXIST, ENOENT, EBADF, EPERM, ENOMEM) and the history continues. Natural failures (duplicate fd, regular file) are ordinary steps. Oracle: the failing call returns Err, no panic then or later, slots and kernel table as before, only the source hit becomes indeterminate, every other source stays under the strict oracles, later insertions succeed.",
+          "The source hit by a fault is not judged afterwards (any behaviour but a panic or an effect on others is accepted).", "3/C15"),
+})
+
 NOT_APPLICABLE = {
   "C20": "pure function of its inputs (shift/mask arithmetic, a counter): no schedule, clock, fault or history for a simulator to control; exhaustive enumeration or proof would be the right tool, which is outside this technique family",
 }
